@@ -684,6 +684,11 @@ class CallMixin:
                 self.st.heap[f.bound.t].f[st['assign_first_arg_to']] = args[0]
             for g, e_ in st.get('ghost_set', {}).items():
                 self.st.ghost[g] = self.ev_spec(e_, dict(self.st.frames[0].env))
+            if st.get('set_receiver_fields') and f.bound is not None and f.bound.k == 'obj':
+                # an abstract constructor / setter that stores some of its arguments: field <- expression over the callee's parameters
+                env_ = self.bind(fn, [f.bound] + list(args), kw, f)
+                for fld, e_ in st['set_receiver_fields'].items():
+                    self.st.heap[f.bound.t].f[fld] = self.ev_spec(e_, dict(env_))
             return r
         if isinstance(fn, ast.Lambda):
             env = dict(f.closure or {})
